@@ -109,6 +109,7 @@ class Engine:
         self.assumed = set()     # contracts used at call sites
         self.noinline = set()
         self.partial_classes = set()
+        self.loops_used = set()
         self.npaths = 0
         self.axioms = []         # global background axioms (z3), listed as trusted
         self.class_models = {}   # real class -> T.Ref for isinstance on SRef
@@ -850,6 +851,8 @@ class Engine:
     # ===================================================================== loops
     def st_While(self, node, st):
         spec = self.loops.get((st.frame.fname, getattr(node, "_loop_ordinal", -1)))
+        if spec is not None:
+            self.loops_used.add((st.frame.fname, getattr(node, "_loop_ordinal", -1)))
         if spec is None or spec.inv is None:
             k = spec.unroll if spec is not None and spec.unroll else self.UNROLL
             yield from self._while_unroll(node, st, k)
@@ -1020,6 +1023,10 @@ class Engine:
 
     def _for_symbolic(self, node, st, seq):
         spec = self.loops.get((st.frame.fname, getattr(node, "_loop_ordinal", -1)))
+        if spec is not None:
+            self.loops_used.add((st.frame.fname, getattr(node, "_loop_ordinal", -1)))
+        if spec is not None:
+            self.loops_used.add((st.frame.fname, getattr(node, "_loop_ordinal", -1)))
         if spec is None or spec.inv is None:
             k = spec.unroll if spec is not None and spec.unroll else self.UNROLL
             # bounded: lengths 0..k with symbolic elements
